@@ -37,6 +37,7 @@ def build_layout(sc, layout):
 
 class C07(Prop):
     id = 'C07'
+    extracted = True      # arithmetic kernels regenerated from the current source (harness/extract.py, Extracted/Equiv*.lean)
     quick_cases = 1200
     thorough_cases = 20000
     quick_budget_s = 45
